@@ -38,9 +38,14 @@ def criterion_tied(kind, y0, w, p, la, lb):
         return True      # robust selection re-weights between iterations: lambda ties are not decidable here -> not flagged
     if kind in ("v", "vlc"):
         grid = LL if kind == "v" else np.arange(0, 3.2, 0.2)
-        v, lamids, _, _ = vcurve(y0, w, grid, p)
+        v, lamids, fits, pens = vcurve(y0, w, grid, p)
         if not np.all(np.isfinite(v)):
             return True      # perfect fit / zero roughness on the grid (log 0): the criterion is degenerate, outside the claim
+        scale = max(1.0, float((w * y0 ** 2).sum()))
+        if np.any(np.exp(fits) <= 1e-18 * scale) or np.any(np.exp(pens) <= 1e-18 * scale):
+            # the valid cells lie exactly on a line (e.g. two valid cells): the exact residual / roughness is 0 and its logarithm is
+            # -inf for every lambda; what the kernel sees is round-off noise of size 1e-25 -- the same degenerate criterion
+            return True
         ia, ib = (int(np.argmin(np.abs(10 ** lamids - x))) for x in (la, lb))
         return abs(v[ia] - v[ib]) <= 1e-7 * max(1.0, abs(v[ia]))
     sc = gcv_scores(y0, w, LLG)
